@@ -440,6 +440,23 @@ class FreeEnergy(InterpolatableFunction):
                     # Both up and down lists are too short
                     raise RuntimeError("Failed to trace phase")
 
+        # The integrator can start with steps that are tiny compared with dT (scipy falls
+        # back to an absolute first step of 1e-6 when the field value is close to zero).
+        # Nearly coincident knots ruin the derivatives of the cubic spline, so only keep
+        # rows that are at least 1e-3*dT away from the previously kept one (the two end
+        # rows are always kept).
+        keep = [0]
+        for i in range(1, len(TFullList) - 1):
+            if TFullList[i] - TFullList[keep[-1]] >= 1e-3 * dT and (
+                TFullList[-1] - TFullList[i] >= 1e-3 * dT
+            ):
+                keep.append(i)
+        if len(TFullList) > 1:
+            keep.append(len(TFullList) - 1)
+        TFullList = TFullList[keep]
+        fieldFullList = fieldFullList[keep]
+        potentialEffFullList = potentialEffFullList[keep]
+
         # overwriting temperature range
         ## HACK! Hard-coded 2*dT, see issue #145
         self.minPossibleTemperature[0] = min(TFullList) + 2 * dT
